@@ -3,6 +3,7 @@ import Dnp3.Proofs.Pair
 import Dnp3.Proofs.C02Static
 import Dnp3.Props.DbComponent
 import Dnp3.Proofs.C02Session
+import Dnp3.Proofs.C02Overflow
 /-!
 # C02 — end-to-end measurement integrity: the part that is provable about the models
 
@@ -49,6 +50,16 @@ models (`Dnp3.Model.MasterSession`, `Dnp3.Model.Outstation`, `Dnp3.Model.Databas
      `deliverBegin`, exactly those calls, `deliverEnd`, and completes the task.
 (iii) `cut_loses_only_in_flight`: the result of `cut` is independent of the queue contents; both
      endpoints go through session end / restart.
+
+(iv) the master's own recovery from an event buffer overflow (the mechanism behind convergence when
+     events were discarded): `overflow_iin_demands_integrity` — an accepted fragment of a READ response
+     with IIN2.3 set, FINAL OR NOT, leaves the association's integrity task not idle (pending, or waiting
+     for its retry instant), whatever the state of the automatic tasks; the only exception, in the
+     statement, is the final fragment of the integrity poll itself.  `nonfinal_overflow_fragment_step`: the
+     same for a non-final fragment through the whole `Master.step`.  `process_iin_overflow` /
+     `process_iin_no_trigger`: `process_iin` demands the task exactly on that bit (or IIN1.7).  The
+     outstation clears the indication with the confirm of a non-final fragment, so it may be carried by
+     non-final fragments only (trace counter `c02_iin23_only_in_nonfinal_fragments_*`).
 
 LEFT TO THE MONITORS: everything that needs the history of the real tasks — convergence after
 arbitrary interleavings of updates / cuts (retries, unsolicited series, event re-transmission after
@@ -509,5 +520,86 @@ example :
     cases x with
     | inl a' => intro _; exact ⟨a', rfl⟩
     | inr _ => intro h; cases h
+
+/-! ## (iv) an overflow indication in ANY accepted fragment demands the integrity poll -/
+
+/-- `Association::process_iin` with IIN2.3 set and `auto_integrity_scan_on_buffer_overflow`: whatever the
+    other IIN bits and the state of the automatic tasks, the integrity task is not idle afterwards -/
+theorem process_iin_overflow (x : Assoc) (i1 i2 : Nat) (hovf : x.cfg.ovf = true) (hb : i2 &&& 0x08 ≠ 0) :
+    (x.processIin i1 i2).auto.integrity.isIdle = false :=
+  Dnp3.Proofs.C02Overflow.processIin_overflow_integrity x i1 i2 hovf hb
+
+/-- … and without IIN2.3 and IIN1.7 it leaves the integrity task as it was (the demand comes from
+    these two bits only) -/
+theorem process_iin_no_trigger (x : Assoc) (i1 i2 : Nat) (h7 : i1 &&& 0x80 = 0) (hb : i2 &&& 0x08 = 0) :
+    (x.processIin i1 i2).auto.integrity = x.auto.integrity :=
+  Dnp3.Proofs.C02Overflow.processIin_no_trigger x i1 i2 h7 hb
+
+/-- **an accepted response fragment with IIN2.3 set, final or not, demands the integrity task.**
+    The master waits for (a fragment of) the response to a READ `t` polled from `dest` (any READ:
+    periodic poll, automatic event scan, user read, integrity poll); the association has
+    `auto_integrity_scan_on_buffer_overflow`; the fragment is accepted by `process_read_response`
+    (with or without CON, FIN or not) and carries IIN2.3.  When the fragment has been handled (IIN
+    processed, measurements delivered, confirm sent and, for a final fragment, the READ task completed)
+    the association's integrity task is not idle.  The one exception is in the statement: the FINAL
+    fragment of the integrity poll itself completes that very task. -/
+theorem overflow_iin_demands_integrity (s : MState) (dest seq dl : Nat) (t : ReadTask) (isFirst : Bool)
+    (src : Nat) (frag : List Nat) (r : Master.Resp) (x : Assoc) (confirm final : Bool)
+    (hm : s.mode = .waitRead dest t seq isFirst dl)
+    (hp : parseResponse frag = some r)
+    (hx : s.getAssoc dest = some x) (hovf : x.cfg.ovf = true)
+    (hv : processReadResponse dest seq isFirst true src r = .accept confirm final)
+    (hiin : r.iin2 &&& 0x08 ≠ 0)
+    (hni : final = true → ∀ c, t ≠ .integrity c) :
+    ∃ y, (onFragment (s, []) src frag).acc.1.getAssoc dest = some y ∧ y.auto.integrity.isIdle = false :=
+  Dnp3.Proofs.C02Overflow.overflow_iin_demands_integrity s dest seq dl t isFirst src frag r x confirm final
+    hm hp hx hovf hv hiin hni
+
+/-- the same through the whole `Master.step` for a NON-FINAL fragment (the shape in which the outstation
+    reports an overflow that the confirm of this very fragment clears): afterwards the master still
+    waits for the next fragment of the READ and the integrity task of the polled association is not
+    idle.  `hlive`: the channel has not been dropped by all its handles. -/
+theorem nonfinal_overflow_fragment_step (s : MState) (dest seq dl : Nat) (t : ReadTask) (isFirst : Bool)
+    (src dst : Nat) (frag : List Nat) (r : Master.Resp) (x : Assoc) (confirm : Bool)
+    (hdst : dst = Master.masterAddr) (hsrc : src < 0xFFF0) (hne : frag.isEmpty = false) (hlen : frag.length ≤ 2048)
+    (hlive : ¬ (s.shutdownReq = true ∧ s.live = 0))
+    (hm : s.mode = .waitRead dest t seq isFirst dl)
+    (hp : parseResponse frag = some r)
+    (hx : s.getAssoc dest = some x) (hovf : x.cfg.ovf = true)
+    (hv : processReadResponse dest seq isFirst true src r = .accept confirm false)
+    (hiin : r.iin2 &&& 0x08 ≠ 0) :
+    ∃ y seq' dl', (Master.step s (.rx src dst frag)).1.getAssoc dest = some y ∧ y.auto.integrity.isIdle = false ∧
+      (Master.step s (.rx src dst frag)).1.mode = .waitRead dest t seq' false dl' :=
+  Dnp3.Proofs.C02Overflow.nonfinal_overflow_fragment_step s dest seq dl t isFirst src dst frag r x confirm
+    hdst hsrc hne hlen hlive hm hp hx hovf hv hiin
+
+/-- a master whose start-up sequence is complete (integrity task idle) runs periodic event poll 0
+    (classes 1-3) and waits for the first fragment of its response with sequence number 0 -/
+def ovfDemo : MState :=
+  { assocs := [{ addr := 1024, cfg := {}, seq := 1, integrityDone := true,
+                 auto := { disable := .idle, integrity := .idle, enable := .idle } }],
+    ring := [1024], mode := .waitRead 1024 (.poll 0 7) 0 true 5000, live := 1 }
+
+/-- FIR, not FIN, CON, sequence 0, RESPONSE, IIN2.3, one g32v1 event (index 0, ONLINE, value 1) -/
+def ovfFrag : List Nat := [0xA0, 0x81, 0x00, 0x08, 32, 1, 0x28, 1, 0, 0, 0, 1, 1, 0, 0, 0]
+
+/-- every hypothesis of `overflow_iin_demands_integrity` / `nonfinal_overflow_fragment_step` holds for
+    this non-final fragment, the integrity task was idle before, and it is pending after the step;
+    the fragment was delivered to the handler and confirmed -/
+example :
+    ∃ r x, parseResponse ovfFrag = some r ∧ ovfDemo.getAssoc 1024 = some x ∧ x.cfg.ovf = true ∧
+      x.auto.integrity = .idle ∧
+      processReadResponse 1024 0 true true 1024 r = .accept true false ∧ r.iin2 &&& 0x08 ≠ 0 ∧
+      ((Master.step ovfDemo (.rx 1024 1 ovfFrag)).1.getAssoc 1024).map (·.auto.integrity) = some .pending ∧
+      MOut.tx 1024 [0xC0, 0] ∈ (Master.step ovfDemo (.rx 1024 1 ovfFrag)).2 ∧
+      MOut.deliverHdr (.assoc 1024) 32 1 0x28 [(0, [1, 1, 0, 0, 0])] ∈ (Master.step ovfDemo (.rx 1024 1 ovfFrag)).2 := by
+  refine ⟨_, _, rfl, rfl, rfl, rfl, ?_, ?_, ?_, ?_, ?_⟩ <;> decide +kernel
+
+/-- the same indication in the FINAL fragment of that poll: the poll completes and the integrity poll
+    is started at once (the next request on the wire is READ class 1, 2, 3, 0) -/
+example :
+    MOut.tx 1024 [0xC1, 1, 0x3c, 0x02, 0x06, 0x3c, 0x03, 0x06, 0x3c, 0x04, 0x06, 0x3c, 0x01, 0x06] ∈
+      (Master.step ovfDemo (.rx 1024 1 ([0xC0] ++ ovfFrag.drop 1))).2 := by
+  decide +kernel
 
 end Dnp3.Props.C02
